@@ -31,6 +31,11 @@ type Scenario struct {
 	ThoroughOnly bool
 	// Known-finding signature prefix to use for violations of this scenario family.
 	Family string
+	// Wall-clock cap per bound for this scenario (0 = only the run's budget). Hitting it is reported
+	// as a cap; the last completed bound is what the evidence claims.
+	MaxTime time.Duration
+	// See mc.Options.SwitchBound.
+	SwitchBound int
 }
 
 type workerReq struct {
@@ -51,7 +56,7 @@ func find(scs []Scenario, name string) *Scenario {
 }
 
 func options(sc *Scenario, bound int) mc.Options {
-	return mc.Options{Bound: bound, Cfg: sc.Cfg, AllowDeadlock: sc.AllowDeadlock, AllowHorizon: sc.AllowHorizon}
+	return mc.Options{Bound: bound, SwitchBound: sc.SwitchBound, Cfg: sc.Cfg, AllowDeadlock: sc.AllowDeadlock, AllowHorizon: sc.AllowHorizon}
 }
 
 // Main is the entry point of an E2 check binary.
@@ -66,6 +71,8 @@ func Main(prop string, scs []Scenario, assumptions []string) {
 			vx.Fatal("unknown scenario %q", req.Scenario)
 		}
 		opt := options(sc, req.Bound)
+		wrun := vx.Start(prop)
+		opt.Ignore = func(f *mc.Failure) bool { return wrun.Known(sigOf(sc, f)) }
 		opt.Shard, opt.Shards = req.Shard, req.Shards
 		opt.Deadline = time.Unix(req.Deadline, 0)
 		rep := mc.Explore(sc.Body, opt)
@@ -130,7 +137,17 @@ func Main(prop string, scs []Scenario, assumptions []string) {
 				run.Capped(sc.Name + ": time budget reached before bound " + boundStr(b))
 				break
 			}
-			rep := exploreSharded(sc, b, run.Deadline)
+			dl := run.Deadline
+			if sc.MaxTime > 0 && time.Now().Add(sc.MaxTime).Before(dl) {
+				dl = time.Now().Add(sc.MaxTime)
+			}
+			rep := exploreSharded(run, sc, b, dl)
+			for sig := range rep.Ignored {
+				run.Known(sigOf(sc, &mc.Failure{Sig: sig}))
+			}
+			if len(rep.Ignored) > 0 {
+				row["known_finding_executions"] = rep.Ignored
+			}
 			last = rep
 			if rep.Found != nil {
 				found = rep.Found
@@ -144,6 +161,9 @@ func Main(prop string, scs []Scenario, assumptions []string) {
 		}
 		run.AddCounts(last.Execs, last.Steps, last.Execs)
 		row["preemption_bound_completed"] = completed
+		if sc.SwitchBound > 0 {
+			row["free_switch_deviation_bound"] = sc.SwitchBound
+		}
 		row["executions"] = last.Execs
 		row["steps"] = last.Steps
 		row["max_choice_points"] = last.MaxPoints
@@ -200,8 +220,9 @@ func sigOf(sc *Scenario, f *mc.Failure) string {
 
 // exploreSharded first tries in-process with an execution cap; if the tree is larger it is split
 // over worker processes.
-func exploreSharded(sc *Scenario, bound int, deadline time.Time) mc.Report {
+func exploreSharded(run *vx.Run, sc *Scenario, bound int, deadline time.Time) mc.Report {
 	opt := options(sc, bound)
+	opt.Ignore = func(f *mc.Failure) bool { return run.Known(sigOf(sc, f)) }
 	opt.MaxExecs = 3000
 	opt.Deadline = deadline
 	rep := mc.Explore(sc.Body, opt)
@@ -251,6 +272,12 @@ func exploreSharded(sc *Scenario, bound int, deadline time.Time) mc.Report {
 		}
 		for o, n := range r.Outcomes {
 			total.Outcomes[o] += n
+		}
+		for o, n := range r.Ignored {
+			if total.Ignored == nil {
+				total.Ignored = map[string]int64{}
+			}
+			total.Ignored[o] += n
 		}
 		if !r.Complete && r.Found == nil {
 			total.Complete = false
